@@ -713,3 +713,8 @@ def run(ctx):
     # writer and reader consume the presence bitmap under the same conditions (shared with C03)
     from .c03 import r9 as presence_slots
     presence_slots(ctx, rule="C01.R6")
+    # the Scope values the two sides build agree field by field and the presence range starts after the extension bit (shared with C03)
+    from .c03 import r1 as scope_symmetry
+    scope_symmetry(ctx, rule="C01.R7")
+    from .c03 import r10 as root_components_counted
+    root_components_counted(ctx, rule="C01.R8")
